@@ -1382,6 +1382,21 @@ def _ensure_within_repo(repo_path: bytes, fs_path: bytes, rel_path: bytes) -> No
         raise ValueError(f"patch affects file outside repository: {rel_path!r}")
 
 
+def _open_patch_target(fs_path: bytes) -> BinaryIO:
+    """Open a patch target for writing without following a symlink at the path.
+
+    ``_validate_patch_target`` refuses symlinks in the leading directories and
+    targets that resolve outside the repository, but a symlink at the target
+    path itself may point into the control directory (``link -> .git/config``
+    stays inside the repository). ``open(..., "wb")`` would follow it and
+    overwrite the file it points at, so replace the link by a regular file,
+    like ``build_file_from_blob`` does on checkout.
+    """
+    if os.path.islink(fs_path):
+        os.unlink(fs_path)
+    return open(fs_path, "wb")
+
+
 def _validate_patch_target(r: "Repo", repo_path: bytes, tree_path: bytes) -> bytes:
     """Validate a patch target path and return its filesystem path.
 
@@ -1503,7 +1518,7 @@ def _apply_rename_or_copy(
     # Write to destination
     if not cached:
         os.makedirs(os.path.dirname(dst_fs_path), exist_ok=True)
-        with open(dst_fs_path, "wb") as f:
+        with _open_patch_target(dst_fs_path) as f:
             f.write(content)
         if patch.new_mode is not None:
             os.chmod(dst_fs_path, cleanup_mode(patch.new_mode))
@@ -1671,7 +1686,7 @@ def apply_patches(
                 # Write binary file
                 if not cached:
                     os.makedirs(os.path.dirname(fs_path), exist_ok=True)
-                    with open(fs_path, "wb") as f:
+                    with _open_patch_target(fs_path) as f:
                         f.write(binary_content)
                     if patch.new_mode is not None:
                         os.chmod(fs_path, cleanup_mode(patch.new_mode))
@@ -1837,7 +1852,7 @@ def apply_patches(
             if not cached:
                 # Write to working tree
                 os.makedirs(os.path.dirname(fs_path), exist_ok=True)
-                with open(fs_path, "wb") as f:
+                with _open_patch_target(fs_path) as f:
                     f.write(result_content)
 
                 # Update file mode if specified
